@@ -1,4 +1,5 @@
 import Hls.Proofs.Render
+import Hls.Proofs.MasterWrittenRT
 /-!
 # C04 — a master playlist survives serialise → parse
 
@@ -6,9 +7,14 @@ import Hls.Proofs.Render
   parser can produce, running the parser's state machine on the lines the writer emits gives
   back exactly `p`.
 * `master_roundtrip` (text): the same through `to_string()` and `MasterPlaylist::try_from`,
-  provided each written line's text classifies back to the line (`LineRT`, discharged per tag in
-  `Props/C04Tags.lean` / hypotheses named there).  Equality of values gives the fixed point of
-  the serialisation for free (`master_fixed_point`).
+  provided each written line's text classifies back to the line (`LineRT`).  Equality of values gives
+  the fixed point of the serialisation for free (`master_fixed_point`).
+* `master_roundtrip_wf` (text, from conditions on the value): `LineRT` is proved for every kind of line
+  the master writer emits (`Proofs/MasterWrittenRT.master_written_lines_rt`: EXT-X-MEDIA, both STREAM-INF
+  tags with their stream data, SESSION-DATA, SESSION-KEY, START, VERSION, INDEPENDENT-SEGMENTS) for the
+  values in `MasterWF` — strings without quote / line end, integers below 2^64, one of the 67 in-stream
+  ids, the tag's own rules — plus two facts about Rust's float formatting (the START offset and the
+  three-decimal FRAME-RATE read back) and the verbatim unknown tags.
 -/
 namespace Hls.C04
 open Hls
@@ -94,5 +100,14 @@ theorem master_fixed_point (s : Str) (p p' : MasterPlaylist) (h : parseMaster s 
     (hrt : ∀ l ∈ p.writeLines, LineRT l) (h' : parseMaster p.show = .ok p') : p'.show = p.show := by
   rw [master_roundtrip s p h hrt] at h'
   cases h'; rfl
+
+/-- **text round trip from conditions on the value** -/
+theorem master_roundtrip_wf (s : Str) (p : MasterPlaylist) (h : parseMaster s = .ok p) (wf : MasterWF p) :
+    parseMaster p.show = .ok p :=
+  master_roundtrip s p h (master_written_lines_rt p wf)
+
+theorem master_fixed_point_wf (s : Str) (p p' : MasterPlaylist) (h : parseMaster s = .ok p) (wf : MasterWF p)
+    (h' : parseMaster p.show = .ok p') : p'.show = p.show :=
+  master_fixed_point s p p' h (master_written_lines_rt p wf) h'
 
 end Hls.C04
